@@ -184,8 +184,22 @@ def judge_built(m):
     return bad
 
 
+def build_any(case):
+    return build_optseq(case) if case.get("kind") == "optseq" else build_case(case)
+
+
 def classify(case, bad):
     kinds = [k for k, _ in bad]
+    if case.get("kind") == "optseq":
+        for k in ("full-checker", "strict-inference", "ort-load", "walker", "missing-function"):
+            if k in kinds:
+                d = [x for kk, x in bad if kk == k][0]
+                if "Identity" in d and "optional" in d:
+                    # the Identity nodes spox itself emits (output wrapping / intros / inlined pass-through) do not
+                    # accept optional types before opset 16
+                    return "optional-value-through-internal-identity-below-opset-16"
+                return f"optional-or-sequence-value:{k}"
+        return "optional-or-sequence-value:invalid"
     for k in ("full-checker", "strict-inference", "ort-load", "walker", "missing-function"):
         if k in kinds:
             return f"ill-typed-call-returned-invalid-model:{k}"
@@ -266,3 +280,137 @@ def gen_case(rng):
     return {"kind": "typed", "site": site, "decl": decl, "arg": [how, shape],
             "dtype": rng.choice(["f32", "f32", "f64", "i64"]), "ver": rng.choice([17, 18, 19, 21]),
             "consume": rng.choice(["none", "identity", "shape"]), "drop": rng.random() < 0.3, "tag": tag}
+
+
+# ----------------------------------------------------------------------------- Optional / Sequence typed values
+"""Optional- and Sequence-typed values at the places where spox itself emits nodes for them (the Identity nodes of
+`build`'s output wrapping / `intros`, the Identity an inlined model needs for an output that is directly an
+input) or hands them through (If results, Loop state, function / inlined-model arguments) - at the LOWEST opset
+the program otherwise needs (the operators' own since-versions: Optional-15, SequenceConstruct-11, ...) and
+with companions of newer modules.
+
+  {"kind": "optseq", "make": <MAKES>, "route": <ROUTES>, "ver": 17..21, "comp": null | ver}
+"""
+MAKES = ["optional", "optional_empty", "sequence", "opt_seq", "opt_get", "seq_at", "seq_empty", "arg_optional",
+         "arg_sequence"]
+ROUTES = ["output", "two_outputs", "intros", "if_result", "loop_state", "func_arg", "inline_arg", "inline_passthrough"]
+
+
+def _optseq_value(make, op, args):
+    import spox
+    from spox import Optional, Sequence, Tensor, argument
+
+    def new_arg(t):
+        v = argument(t)
+        args[f"in{len(args)}"] = v
+        return v
+
+    f2 = Tensor(np.float32, (2,))
+    if make == "arg_optional":
+        return new_arg(Optional(f2))
+    if make == "arg_sequence":
+        return new_arg(Sequence(f2))
+    a = new_arg(f2)
+    if make == "optional":
+        return op.optional(a)
+    if make == "optional_empty":
+        return op.optional(type=f2)
+    if make == "sequence":
+        return op.sequence_construct([a, a])
+    if make == "seq_empty":
+        return op.sequence_empty(dtype=np.float32)
+    if make == "opt_seq":
+        return op.optional(op.sequence_construct([a]))
+    if make == "opt_get":
+        return op.optional_get_element(op.optional(a))
+    if make == "seq_at":
+        return op.sequence_at(op.sequence_construct([a, a]), op.constant(value=np.array(1, np.int64)))
+    raise ValueError(make)
+
+
+def _type_proto(t):
+    """spox type -> onnx.TypeProto through the public constructor arguments only"""
+    from onnx import TensorProto as TP
+    from onnx import helper as h
+    from spox import Optional, Sequence
+
+    if isinstance(t, Optional):
+        return h.make_optional_type_proto(_type_proto(t.elem_type))
+    if isinstance(t, Sequence):
+        return h.make_sequence_type_proto(_type_proto(t.elem_type))
+    return h.make_tensor_type_proto(TP.FLOAT, None if t.shape is None else list(t.shape))
+
+
+def realise_optseq(case):
+    import importlib
+
+    import onnx
+    import spox
+    from onnx import helper as h
+    from spox import Optional, Sequence, Tensor, argument
+    from spox._function import to_function
+
+    op = importlib.import_module(f"spox.opset.ai.onnx.v{case.get('ver', 17)}")
+    args: dict = {}
+    v = _optseq_value(case["make"], op, args)
+    route = case["route"]
+    outs = {}
+    if route == "output":
+        outs["r"] = v
+    elif route == "two_outputs":
+        outs["r"] = v
+        outs["r2"] = v
+    elif route == "intros":
+        from spox._internal_op import intros
+
+        (outs["r"],) = intros(v)
+    elif route == "if_result":
+        c = argument(Tensor(np.bool_, ()))
+        args["c"] = c
+        (outs["r"],) = op.if_(c, then_branch=lambda: [v], else_branch=lambda: [v])
+    elif route == "loop_state":
+        (outs["r"],) = op.loop(op.constant(value=np.array(2, np.int64)), v_initial=[v], body=lambda i, c, s: [c, s])
+    elif route == "func_arg":
+        f = to_function("optseq_fn", "optseq.dom")(lambda s: [op.identity(s)])
+        (outs["r"],) = f(v)
+    elif route in ("inline_arg", "inline_passthrough"):
+        tp = _type_proto(v.unwrap_type())
+        vi = h.make_value_info("s", tp)
+        mops = case.get("inline_opset", 16)
+        if route == "inline_passthrough":
+            g = h.make_graph([], "pass", [vi], [h.make_value_info("s", tp)])
+        else:
+            g = h.make_graph([h.make_node("Identity", ["s"], ["t"], name="idn")], "idg", [vi], [h.make_value_info("t", tp)])
+        m = h.make_model(g, opset_imports=[h.make_operatorsetid("", mops)], ir_version=8)
+        onnx.checker.check_model(m, full_check=True)
+        (outs["r"],) = spox.inline(m)(v).values()
+    else:
+        raise ValueError(route)
+    if case.get("comp"):
+        a2 = argument(Tensor(np.float32, (2,)))
+        args["z"] = a2
+        outs["zz"] = importlib.import_module(f"spox.opset.ai.onnx.v{case['comp']}").identity(a2)
+    return spox.build(args, outs)
+
+
+def build_optseq(case):
+    with warnings.catch_warnings():
+        warnings.simplefilter("ignore")
+        try:
+            return "ok", realise_optseq(case)
+        except Exception as e:  # noqa: BLE001 - raising is an accepted outcome
+            return "err", f"{type(e).__name__}: {str(e)[:200]}"
+
+
+def all_optseq_cases():
+    cases = []
+    for make in MAKES:
+        for route in ROUTES:
+            for ver, comp in ((17, None), (19, None), (17, 19), (17, 21)):
+                c = {"kind": "optseq", "make": make, "route": route, "ver": ver, "comp": comp}
+                if route.startswith("inline"):
+                    for mops in (15, 16, 17):
+                        cases.append({**c, "inline_opset": mops})
+                else:
+                    cases.append(c)
+    return cases
